@@ -1,4 +1,4 @@
-import Octo.Model.Sql
+import Octo.Model.SqlAst
 /-!
 # A hand-written parser for the fragment (C30)
 
@@ -13,7 +13,7 @@ Recursion: the functions for one nesting level are built from the parsers of the
 `parsers (n+1)` from `parsers n`; loops carry their own fuel (the number of tokens at the entry of the level).
 Core Lean only.
 -/
-namespace Octo.Sql
+namespace Octo.SqlSyn
 
 abbrev P (α : Type) := List Tok → Option (α × List Tok)
 
@@ -831,4 +831,4 @@ def parseStmtFuel (n : Nat) (ts : List Tok) : Option Sel :=
 /-- `sqlparser.Parse` on the fragment -/
 def parseStmt (ts : List Tok) : Option Sel := parseStmtFuel (ts.length + 1) ts
 
-end Octo.Sql
+end Octo.SqlSyn
